@@ -338,3 +338,64 @@ pub fn moduli() -> Vec<(&'static str, refmodel::big::U)> {
         ("2", U::from_u64(2)),
     ]
 }
+
+/// Structured multi-bit alterations of a 20-byte proof (none equals the original): all pairs of
+/// bit flips (thorough) or the pairs a word-/byte-folding comparison would cancel (quick), single
+/// byte replacements, truncations to zero from either end, rotations, reversal, complement.
+pub fn altered_proofs(p: &[u8; 20], full: bool) -> Vec<[u8; 20]> {
+    let mut v: Vec<[u8; 20]> = vec![];
+    let flip = |x: &mut [u8; 20], bit: usize| x[bit / 8] ^= 1 << (bit % 8);
+    for i in 0..160 {
+        for j in (i + 1)..160 {
+            // quick: same bit position in two bytes (distance multiple of 8), or neighbours
+            if full || (j - i) % 8 == 0 || j == i + 1 {
+                let mut x = *p;
+                flip(&mut x, i);
+                flip(&mut x, j);
+                v.push(x);
+            }
+        }
+    }
+    for pos in 0..20 {
+        let vals: Vec<u8> = if full { (0..=255).collect() } else { vec![0x00, 0xFF, p[pos] ^ 0x80, p[pos].wrapping_add(1)] };
+        for val in vals {
+            if val != p[pos] {
+                let mut x = *p;
+                x[pos] = val;
+                v.push(x);
+            }
+        }
+    }
+    for k in 1..20 {
+        let mut head = *p;
+        for b in head.iter_mut().skip(k) {
+            *b = 0;
+        }
+        v.push(head);
+        let mut tail = *p;
+        for b in tail.iter_mut().take(k) {
+            *b = 0;
+        }
+        v.push(tail);
+        let mut rot = *p;
+        rot.rotate_left(k);
+        v.push(rot);
+    }
+    let mut rev = *p;
+    rev.reverse();
+    v.push(rev);
+    v.push(p.map(|b| !b));
+    v.push([0u8; 20]);
+    // three flips whose 32-bit words XOR-cancel pairwise cannot exist; but 4 flips can: bits (i, i+32) and (j, j+32)
+    for i in 0..32 {
+        let mut x = *p;
+        for w in 0..4 {
+            flip(&mut x, i + 32 * w);
+        }
+        v.push(x);
+    }
+    v.retain(|x| x != p);
+    v.sort();
+    v.dedup();
+    v
+}
